@@ -218,6 +218,9 @@ func init() {
 			}
 			pl := v1x.MakePlan(c.Rng, p)
 			v1x.LazyPrefix(pl, c.Index)
+			if v1x.EmptyKeyVariant(pl, c.Index) {
+				c.Obs("histories_with_the_empty_key", 1)
+			}
 			c.Res.Digest = fw.DigestOf(pl.Cfg, pl.Summary(1000))
 			if c.Index < 2 {
 				c.Res.Sample = pl.Summary(60)
